@@ -227,7 +227,9 @@ static void walk(const DOMNode* x, const RN* r, const std::string& path, Ctx& c,
 
 // ---------------------------------------------------------------------------------------------- parse-side check
 static unsigned g_apis = 0x1f, g_scn = 0xf;
-static bool g_v11all = false, g_expat = true;
+static bool g_v11all_get();
+static bool g_expat = true;
+
 
 static bool has_undecl(const ElemSpec& e) {
     for (auto& a : e.attrs) if (a.qname.compare(0, 6, "xmlns:") == 0 && a.value.empty()) return true;
@@ -247,7 +249,7 @@ static void check_doc(const ElemSpec& root, Ctx& c) {
     bool undecl = has_undecl(root);
     if (undecl) c.count("docs_with_prefix_undeclaration");
     for (int v11 = 0; v11 < 2; v11++) {
-        if (v11 && !undecl && !g_v11all) continue;
+        if (v11 && !undecl && !g_v11all_get()) continue;
         std::string doc = render_doc(root, v11 != 0);
         NsModel m; m.v11 = v11 != 0;
         REl r; m.elem(root, r);
@@ -322,8 +324,28 @@ static void check_doc(const ElemSpec& root, Ctx& c) {
 }
 
 // ---------------------------------------------------------------------------------------------- spaces
-static std::vector<Shape> L1, L2, L3;
-static std::string g_space;
+// One driver process runs a PLAN = list of parts (sub-spaces); the global case index is the concatenation of the parts' ranges.
+// (Starting a sanitized process is expensive on this box, so the quick tier runs all its sub-spaces as one plan.)
+struct Part {
+    std::string name, kind;                 // kind: one|two|three|sib|ladder|witness|build
+    std::vector<Shape> a, b, c;
+    bool v11all = false, strict = false; int k = 3;
+    std::vector<ElemSpec> docs; std::vector<std::string> labels;   // ladder / witness documents
+    uint64_t total = 0, base = 0;
+};
+static std::vector<Part> PARTS;
+static const Part* P = nullptr;
+#define L1 (P->a)
+#define L2 (P->b)
+#define L3 (P->c)
+#define g_space (P->kind)
+static bool g_v11all = false;
+static int g_k = 3;
+static bool g_v11all_get() { return g_v11all; }
+static uint64_t select_part(uint64_t idx) {   // sets the current part, returns the index local to it
+    for (auto& p : PARTS) if (idx < p.base + p.total) { P = &p; g_v11all = p.v11all; g_strict = p.strict; g_k = p.k; return idx - p.base; }
+    fprintf(stderr, "case index out of range\n"); exit(2);
+}
 
 static ElemSpec two_kids(ElemSpec root, const Shape& child, const std::string& local) {
     root.kids.push_back(elem_of(child, local, false));
@@ -351,10 +373,7 @@ static ElemSpec case_sib(uint64_t i) {  // a declaration in the first child must
 
 // ladders: thresholds read from the code: ElemStack/WFElemStack prefix map 16,20,25,31,38,47,58,72 (x1.25), element stack 32,
 // SAX2 fPrefixes stack 30 / fPrefixCounts 10, attribute vectors 32, hashed duplicate check above 100 attributes
-static std::vector<ElemSpec> LADDER;
-static bool g_ladder_quick = false;
-static std::vector<std::string> LADDER_LABEL;
-static void init_ladder() {
+static void init_ladder(bool g_ladder_quick, std::vector<ElemSpec>& LADDER, std::vector<std::string>& LADDER_LABEL) {
     auto N = [](int i) { return "n" + std::to_string(i); };
     std::vector<int> sizes = {15, 16, 17, 20, 21, 25, 26, 29, 30, 31, 32, 33, 38, 39, 47, 48, 58, 59, 64, 65, 66, 72, 73};
     if (g_ladder_quick) sizes = {16, 17, 31, 32, 33, 64, 65, 66};
@@ -455,8 +474,6 @@ static const std::vector<BOp> OPS = {
     {O_ANS, "u1", "p:x", "1", "setAttributeNS(u1,p:x)"}, {O_ANS, "u2", "q:x", "1", "setAttributeNS(u2,q:x)"}, {O_ANS, nullptr, "x", "1", "setAttributeNS(null,x)"},
     {O_AL1, nullptr, "xmlns", "u1", "setAttribute(xmlns,u1)"}, {O_AL1, nullptr, "xmlns:p", "u2", "setAttribute(xmlns:p,u2)"},
     {O_TEXT, nullptr, nullptr, "t", "appendChild(text)"}, {O_UP, nullptr, nullptr, nullptr, "cursor=parent"}, {O_SETPREFIX, nullptr, "q", nullptr, "setPrefix(q)"}};
-static int g_k = 3;
-
 static std::string program_text(uint64_t idx) {
     std::string o;
     for (int t : word_at(idx, OPS.size(), g_k)) o += std::string(o.empty() ? "" : "; ") + OPS[t].label;
@@ -606,53 +623,93 @@ static void init_witness() {
 }
 
 // ---------------------------------------------------------------------------------------------- main
-static ElemSpec case_of(uint64_t i) {
+static ElemSpec case_local(uint64_t i) {   // i is local to the current part P
     if (g_space == "one") return case_one(i);
     if (g_space == "two") return case_two(i);
     if (g_space == "three") return case_three(i);
     if (g_space == "sib") return case_sib(i);
-    if (g_space == "ladder") return LADDER[i];
+    if (g_space == "ladder") return P->docs[i];
     return WITNESS[i - WITNESS_PROGRAMS.size()];
 }
-static void run_parse_case(uint64_t idx, Ctx& c) {
-    if (g_space == "witness" && idx < WITNESS_PROGRAMS.size()) { run_build(WITNESS_PROGRAMS[idx], c); return; }   // first: a crash loses only this worker's *earlier* cases
-    ElemSpec root = case_of(idx);
+static std::string describe_case(uint64_t idx) {
+    uint64_t i = select_part(idx);
+    std::string head = "{\"part\":" + jstr(P->name) + ",\"local_index\":" + std::to_string(i) + ",";
+    if (g_space == "build") return head + "\"program\":" + jstr(program_text(i)) + "}";
+    if (g_space == "ladder") return head + "\"label\":" + jstr(P->labels[i]) + "}";
+    if (g_space == "witness") {
+        if (i < WITNESS_PROGRAMS.size()) return head + "\"defect\":\"document-without-root-lookup-null-deref\",\"program\":" + jstr("createDocument(); " + program_text(WITNESS_PROGRAMS[i]) + "; doc->lookupNamespaceURI(null)") + "}";
+        return head + "\"defect\":" + jstr(WITNESS_LABEL[i - WITNESS_PROGRAMS.size()]) + ",\"doc\":" + jstr(render_doc(case_local(i), false).substr(0, 300)) + "}";
+    }
+    return head + "\"doc\":" + jstr(render_doc(case_local(i), false).substr(0, 2000)) + "}";
+}
+static void run_case(uint64_t idx, Ctx& c) {
+    uint64_t i = select_part(idx);
+    c.count("cases:" + P->name);
+    if (g_space == "build") { run_build(i, c); return; }
+    if (g_space == "witness" && i < WITNESS_PROGRAMS.size()) { run_build(WITNESS_PROGRAMS[i], c); return; }   // first: a crash loses only this worker's *earlier* cases
+    ElemSpec root = case_local(i);
     g_pending.clear();
     check_doc(root, c);
     flush_pending(c);
-    if (idx % 2003 == 0) c.sample("{\"doc\":" + jstr(render_doc(root, false).substr(0, 300)) + "}");
+    if (idx % 2003 == 0) c.sample("{\"part\":" + jstr(P->name) + ",\"doc\":" + jstr(render_doc(root, false).substr(0, 300)) + "}");
+}
+
+// part syntax: one:<l1>[:v11]  two:<l1>:<l2>[:v11]  three:<l1>:<l2>:<l3>  sib:<l1>:<l2>:<l3>  ladder:quick|full  witness  build:<k>
+static Part make_part(const std::string& spec) {
+    std::vector<std::string> f; size_t i = 0;
+    while (i <= spec.size()) { size_t j = spec.find(':', i); if (j == std::string::npos) j = spec.size(); f.push_back(spec.substr(i, j - i)); i = j + 1; }
+    Part p; p.name = spec; p.kind = f[0];
+    if (!f.empty() && f.back() == "v11") { p.v11all = true; f.pop_back(); }
+    auto need = [&](size_t n) { if (f.size() != n) { fprintf(stderr, "bad part %s\n", spec.c_str()); exit(2); } };
+    if (p.kind == "one") { need(2); p.a = lod(f[1]); p.total = p.a.size() * 2; }
+    else if (p.kind == "two") { need(3); p.a = lod(f[1]); p.b = lod(f[2]); p.total = p.a.size() * p.b.size(); }
+    else if (p.kind == "three") { need(4); p.a = lod(f[1]); p.b = lod(f[2]); p.c = lod(f[3]); p.total = p.a.size() * p.b.size() * p.c.size(); }
+    else if (p.kind == "sib") { need(4); p.a = lod(f[1]); p.b = lod(f[2]); p.c = lod(f[3]); p.total = p.a.size() * p.b.size() * 2 * p.c.size(); }
+    else if (p.kind == "ladder") { need(2); init_ladder(f[1] == "quick", p.docs, p.labels); p.total = p.docs.size(); }
+    else if (p.kind == "witness") { need(1); p.strict = true; if (WITNESS.empty()) init_witness(); p.total = WITNESS.size() + WITNESS_PROGRAMS.size(); }
+    else if (p.kind == "build") { need(2); p.k = atoi(f[1].c_str()); p.total = words_upto(OPS.size(), p.k); }
+    else { fprintf(stderr, "unknown part kind in %s\n", spec.c_str()); exit(2); }
+    return p;
 }
 
 int main(int argc, char** argv) {
     Args a(argc, argv);
-    g_space = a.str("space", "one");
+    std::string space = a.str("space", "one");
     g_apis = (unsigned)a.num("apis", 0x1f);
     g_scn = (unsigned)a.num("scanners", 0xf);
-    g_v11all = a.num("v11all", 0) != 0;
     g_expat = a.num("expat", 1) != 0;
-    g_strict = a.num("strict", 0) != 0;
     g_disc = a.num("disc", 0) != 0;
-    g_k = (int)a.num("k", 3);
+    // the plan: either --space multi --parts "p1,p2,..." or one part given the classic way
+    std::string plan;
+    std::string v11 = a.num("v11all", 0) ? ":v11" : "";
+    if (space == "multi") plan = a.str("parts", "");
+    else if (space == "one") plan = "one:" + a.str("l1", "full") + v11;
+    else if (space == "two") plan = "two:" + a.str("l1", "env") + ":" + a.str("l2", "mid") + v11;
+    else if (space == "three") plan = "three:" + a.str("l1", "envs") + ":" + a.str("l2", "midmod") + ":" + a.str("l3", "mid");
+    else if (space == "sib") plan = "sib:" + a.str("l1", "env") + ":" + a.str("l2", "decl1") + ":" + a.str("l3", "use");
+    else if (space == "ladder") plan = "ladder:" + a.str("ladder", "full");
+    else if (space == "witness") plan = "witness";
+    else if (space == "build") plan = "build:" + std::to_string(a.num("k", 3));
+    else { fprintf(stderr, "unknown space\n"); return 2; }
+    {
+        size_t i = 0;
+        while (i < plan.size()) { size_t j = plan.find(',', i); if (j == std::string::npos) j = plan.size(); if (j > i) PARTS.push_back(make_part(plan.substr(i, j - i))); i = j + 1; }
+    }
+    if (PARTS.empty()) { fprintf(stderr, "empty plan\n"); return 2; }
+    uint64_t total = 0;
+    std::string pj;
+    for (auto& p : PARTS) {
+        p.base = total; total += p.total;
+        if (a.num("strict", 0)) p.strict = true;
+        pj += (pj.empty() ? "" : ",") + jstr(p.name) + ":{\"cases\":" + std::to_string(p.total) + ",\"l1\":" + std::to_string(p.a.size()) + ",\"l2\":" + std::to_string(p.b.size()) + ",\"l3\":" + std::to_string(p.c.size()) + "}";
+    }
     xml_init();
     Runner R;
-    R.name = g_space;
-    R.fn = run_parse_case;
-    R.describe = [](uint64_t i) { std::string d = render_doc(case_of(i), false); return "{\"doc\":" + jstr(d.substr(0, 2000)) + "}"; };
-    if (g_space == "one") { L1 = lod(a.str("l1", "full")); R.total = L1.size() * 2; }
-    else if (g_space == "two") { L1 = lod(a.str("l1", "env")); L2 = lod(a.str("l2", "mid")); R.total = L1.size() * L2.size(); }
-    else if (g_space == "three") { L1 = lod(a.str("l1", "envs")); L2 = lod(a.str("l2", "midmod")); L3 = lod(a.str("l3", "mid")); R.total = L1.size() * L2.size() * L3.size(); }
-    else if (g_space == "sib") { L1 = lod(a.str("l1", "env")); L2 = lod(a.str("l2", "decl1")); L3 = lod(a.str("l3", "use")); R.total = L1.size() * L2.size() * 2 * L3.size(); }
-    else if (g_space == "ladder") { g_ladder_quick = a.str("ladder", "full") == "quick"; init_ladder(); R.total = LADDER.size(); R.describe = [](uint64_t i) { return "{\"label\":" + jstr(LADDER_LABEL[i]) + "}"; }; }
-    else if (g_space == "witness") {
-        g_strict = true; init_witness(); R.total = WITNESS.size() + WITNESS_PROGRAMS.size();
-        R.describe = [](uint64_t i) { return i >= WITNESS_PROGRAMS.size() ? "{\"defect\":" + jstr(WITNESS_LABEL[i - WITNESS_PROGRAMS.size()]) + ",\"doc\":" + jstr(render_doc(case_of(i), false).substr(0, 300)) + "}"
-                                                                 : "{\"defect\":\"document-without-root-lookup-null-deref\",\"program\":" + jstr("createDocument(); " + program_text(WITNESS_PROGRAMS[i]) + "; doc->lookupNamespaceURI(null)") + "}"; };
-    }
-    else if (g_space == "build") {
-        R.total = words_upto(OPS.size(), g_k); R.fn = run_build;
-        R.describe = [](uint64_t i) { return "{\"program\":" + jstr(program_text(i)) + "}"; };
-    } else { fprintf(stderr, "unknown space\n"); return 2; }
-    R.extra_json = "\"bounds\":{\"l1\":" + std::to_string(L1.size()) + ",\"l2\":" + std::to_string(L2.size()) + ",\"l3\":" + std::to_string(L3.size()) + ",\"k\":" + std::to_string(g_k) + ",\"ops\":" + std::to_string(OPS.size()) + "}";
-    if (a.has("print")) { uint64_t i = (uint64_t)a.num("print"); printf("%s\n", g_space == "build" ? program_text(i).c_str() : render_doc(case_of(i), false).c_str()); return 0; }
+    R.name = space == "multi" ? "multi" : PARTS[0].kind;
+    R.total = total;
+    R.fn = run_case;
+    R.describe = describe_case;
+    R.extra_json = "\"bounds\":{\"parts\":{" + pj + "},\"builder_ops\":" + std::to_string(OPS.size()) + "}";
+    if (a.has("print")) { std::string d = describe_case((uint64_t)a.num("print")); printf("%s\n", d.c_str()); return 0; }
     return R.main_tail(a);
 }
